@@ -256,8 +256,21 @@ package crypto
 
 // Decoding a compressed BLS12-381 point is done by the external kilic/bls12-381 library:
 // assumed to return an error (never panic) on any input.
+// An EdDSA signature hands out a copy of its bytes.
+//@ func (EDDSASignature).ToBytes property C12
+//@   ensures [copy] content(result) == content(sig.sig) && len(result) == len(sig.sig)
+//@   ensures [fresh] len(result) > 0 ==> fresh(result)
+//@   modifies alloc
+
+//@ pure func blsenc(a *BLS12AggregateSignature) int
+//@ func (*BLS12AggregateSignature).ToBytes
+//@   trusted external library (kilic/bls12-381 ToCompressed); a function of the signature object
+//@   ensures agg == nil ==> result == nil
+//@   ensures agg != nil ==> fresh(result) && content(result) == blsenc(agg)
+//@   modifies alloc
 //@ func RestoreBLS12AggregateSignature
 //@   trusted external library (kilic/bls12-381 FromCompressed); assumed total
 //@   ensures err == nil ==> s != nil
+//@   ensures [participants-kept] err == nil ==> samearr(s.participants.data, participants.data) && len(s.participants.data) == len(participants.data) && s.participants.len == participants.len
 //@   ensures err != nil ==> s == nil
 //@   modifies alloc
